@@ -437,6 +437,13 @@ func init() {
 			return args[0]
 		})
 	}
+	// timers: an arbitrary amount of time may pass at any point, so a timer channel is ready at once
+	// (a select with other ready cases then has several enabled alternatives)
+	reg("time.After", func(in *Interp, caller *frame, pos token.Pos, fn *ssa.Function, args []Value) Value {
+		in.noteUsed("time.After fires at once (arbitrary delays)")
+		tt := fn.Signature.Results().At(0).Type().Underlying().(*types.Chan).Elem()
+		return &Chan{Cap: 1, ET: tt, Buf: []Value{in.zero(tt)}}
+	})
 	reg("time.Sleep", func(in *Interp, caller *frame, pos token.Pos, fn *ssa.Function, args []Value) Value {
 		in.yield()
 		return nil
